@@ -90,6 +90,7 @@ type Op struct {
 	Max    int               `json:"max,omitempty"`
 	Marker string            `json:"marker,omitempty"`
 	HasMk  bool              `json:"hasMk,omitempty"`
+	Sticky bool              `json:"sticky,omitempty"` // V2 walks: keep sending start-after together with the continuation token (as the AWS SDK paginator does)
 	Up     int               `json:"up,omitempty"` // upload ref (0-based index into uploads initiated in this run, wraps); -1 unknown
 	Part   int               `json:"part,omitempty"`
 	Parts  []PartRef         `json:"parts,omitempty"`
